@@ -452,6 +452,16 @@ def check_auipc(report, facts, rule_adj, rule_sib):
     sites = [s for s in all_sites if s.recv[0] == 'attr' and s.recv[2] == 'imm']
     wr = wrappers(facts, sites)
     wcalls = wrapper_call_sites(facts, wr)
+    # the -4 ("relative to the auipc in front") belongs to the jalr half of an auipc pair and to nothing else: a displacement of the
+    # evaluation point on a path that does not know the item carries is_auipc_jump moves every ordinary %lo(%offset(L)) operand
+    for wname, w in sorted(wr.items()):
+        for flag, k, post, s in w['cases']:
+            if k and flag is not True:
+                report.fail(Finding(rule_adj, wname, s.node,
+                                    'the evaluation point is moved by {:+d} on a path that is not restricted to is_auipc_jump items ({}): an ordinary instruction whose operand has '
+                                    'that shape (addi t0, t0, %lo(%offset(L)) after a hand-written auipc, or anywhere else) is evaluated {} bytes off'.format(
+                                        k, s.path.cond_text()[-80:] or 'unconditionally', abs(k)), line=s.node.lineno),
+                            instance='{}: displacement only for flagged items'.format(wname))
     report.count('item-immediate evaluation sites', len({(s.fn, s.node.lineno) for s in sites}) + len({(c['fn'], c['node'].lineno) for c in wcalls}))
     pa = LR.pass_analysis(facts, 'transform_pseudo_instructions')
     nonlinear = False
